@@ -27,6 +27,14 @@ fn ctx_ctors() -> Vec<Ctor> {
         ctor(1, |mut k| G::un(Op::CtxRep, k.remove(0)).with(|p| p.flav = Flav::Unit)),
         ctor(1, |mut k| G::un(Op::CtxRep, k.remove(0)).with(|p| p.flav = Flav::Count)),
         ctor(1, |mut k| G::un(Op::CtxRep, k.remove(0)).with(|p| p.lead = true)),
+        // a range from the context (at_least(n/2).at_most(n)): the repetition may stop on a failing item
+        ctor(1, |mut k| G::un(Op::CtxRep, k.remove(0)).with(|p| p.trail = true)),
+        ctor(1, |mut k| {
+            G::un(Op::CtxRep, k.remove(0)).with(|p| {
+                p.trail = true;
+                p.flav = Flav::Unit
+            })
+        }),
         ctor(1, |mut k| {
             G::un(Op::CtxRep, k.remove(0)).with(|p| {
                 p.lead = true;
@@ -119,9 +127,13 @@ fn families() -> Vec<G> {
     let rep = |g: G, lo: u8, hi: Option<u8>, f: Flav| G::rep(g, lo, hi, f);
     let mut v: Vec<G> = vec![];
     // length-prefixed: the number of a's gives the number of following items
-    for item in [G::just('b'), G::set(OneOf, "bé"), G::bin(Then, G::just('b'), G::un(OrNot, G::just('a')))] {
-        for tryv in [true, false] {
-            let body = G::un(CtxRep, item.clone()).with(|p| p.ok = tryv);
+    // (items that can fail after having consumed a token: "bé" against "ba", b·a against "bb")
+    for item in [G::just('b'), G::set(OneOf, "bé"), G::bin(Then, G::just('b'), G::un(OrNot, G::just('a'))), G::just_seq("bé"), G::bin(Then, G::just('b'), G::just('a'))] {
+        for (tryv, ranged) in [(true, false), (false, false), (true, true)] {
+            let body = G::un(CtxRep, item.clone()).with(|p| {
+                p.ok = tryv;
+                p.trail = ranged
+            });
             v.push(G::bin(ThenWithCtx, rep(G::just('a'), 0, None, Flav::Str), body.clone()));
             v.push(G::bin(Then, G::bin(IgnoreWithCtx, rep(G::just('a'), 1, Some(3), Flav::Vec), body.clone()), rep(any(), 0, None, Flav::Str)));
             // several length-prefixed records in a row: the provider runs once per record
@@ -191,6 +203,14 @@ pub fn run(cx: &RunCtx) -> i32 {
     acc.merge(facc);
     acc.count("family_grammars", n_fam as u64);
 
+    // configurable parsers configured by reference vs owned vs static (statically typed, model-free)
+    let rwords: Vec<String> = all_inputs(&alpha, cx.t(6, 7)).iter().map(|w| w.iter().collect()).collect();
+    let racc0 = for_each_index(16, cx.threads, 1, |acc, shard| {
+        let mine: Vec<String> = rwords.iter().skip(shard).step_by(16).cloned().collect();
+        super::c15ref::family(acc, &mine);
+    });
+    acc.merge(racc0);
+
     // C01-class grammars with providers inserted at random nodes and probes everywhere
     let n_rand = cx.t(20_000, 400_000);
     let seed = cx.seed;
@@ -215,11 +235,11 @@ pub fn run(cx: &RunCtx) -> i32 {
         cx,
         acc,
         Finish {
-            rule: format!("every grammar with <= {size} nodes over the K02 basis + context providers (with_ctx x2, map_ctx, then_with_ctx, ignore_with_ctx) + context readers (just(..).configure(seq(ctx)), repeated().configure(exactly(len(ctx))), repeated().try_configure(..) with an error case, probes) containing >= 1 provider and >= 1 reader x every input <= {max_len} over {{a,b,é}}, every node additionally observing ctx() in a map_with; {n_fam} hand-listed family grammars (length-prefixed records incl. a^n b^n, delimiter-echo / raw-string-like, indentation-like, nested and shadowing providers, providers inside repetitions/choices/recursion) x every input <= {} ; {n_rand} random grammars x 5 inputs; parse and check mode. Each observation must equal the value supplied by the nearest enclosing provider for this attempt (the model passes the context down the tree); configured parsers must accept exactly what the reference semantics of the static configuration accepts. Non-trivial: accepted non-empty input", cx.t(7, 8)),
+            rule: format!("every grammar with <= {size} nodes over the K02 basis + context providers (with_ctx x2, map_ctx, then_with_ctx, ignore_with_ctx) + context readers (just(..).configure(seq(ctx)), repeated().configure(exactly(len(ctx))), repeated().try_configure(..) with an error case, probes) containing >= 1 provider and >= 1 reader x every input <= {max_len} over {{a,b,é}}, every node additionally observing ctx() in a map_with; {n_fam} hand-listed family grammars (length-prefixed records incl. a^n b^n, delimiter-echo / raw-string-like, indentation-like, nested and shadowing providers, providers inside repetitions/choices/recursion) x every input <= {} ; {n_rand} random grammars x 5 inputs; parse and check mode; a statically typed family (delimiter echo, length-prefixed with exact and ranged counts) in which the configurable parser is configured by reference ((&p).configure(..)), compared with the owned formulation and with the statically configured parser, value-building, under to_slice() and under ignored(), x every input <= {}. Each observation must equal the value supplied by the nearest enclosing provider for this attempt (the model passes the context down the tree); configured parsers must accept exactly what the reference semantics of the static configuration accepts. Non-trivial: accepted non-empty input", cx.t(7, 8), cx.t(6, 7)),
             exhaustive: false,
             exhaustive_note: format!("grammars <= {size} nodes with a provider and a reader x inputs <= {max_len}: complete"),
             assumptions: vec!["context values are the universal Val type; `len(ctx)` / `text(ctx)` are the flattened token text of the provider's output".into()],
-            require: vec![("context_observations_under_a_provider".into(), 100_000), ("probe_context_observations".into(), 1000), ("accepted_after_backtracking".into(), 1000), ("rejected_with_try_configure_error".into(), 100), ("family_accepted".into(), 1000)],
+            require: vec![("context_observations_under_a_provider".into(), 100_000), ("probe_context_observations".into(), 1000), ("accepted_after_backtracking".into(), 1000), ("rejected_with_try_configure_error".into(), 100), ("family_accepted".into(), 1000), ("by_reference_cases".into(), 10_000), ("by_reference_accepting_cases".into(), 1000)],
             min_evaluations: 10_000,
         },
     )
